@@ -1,17 +1,25 @@
 (** C12: what the registry model takes as given, re-derived from the Go source on every run
-    ([Gen/RegistryGen.v], written by tools/gotocoq/registry):
+    ([Gen/RegistryGen.v], written by tools/gotocoq/registry).  THIS file has the generic part only (it does not
+    import the generated file, so it always compiles): interpreters of the regenerated terms, decidable side
+    conditions and the lemmas "side condition => what the model needs".  The side conditions are evaluated on the
+    regenerated terms in Props/C12Source*.v, one file per item, so an item the translator cannot determine (or
+    that changed harmfully) fails ITS obligation only.
 
-    - the string [TokenPair.GetID] hashes.  Generic lemma: a hash of  text ++ sep ++ denom0  whose separator starts
-      with a character no hex address contains is collision-free on hex-address texts whenever the hash itself is;
-      the decidable side condition [getid_shape_ok] is evaluated on the regenerated operand list.  So the oracle
-      hypothesis of the C12 theorems ([hid] injective on hex-address texts, never empty) is met by the REAL GetID
-      as soon as sha256 is collision-free - and by nothing weaker: for arbitrary texts "a|b","c" and "a","b|c"
-      collide, which is why the theorems only assume injectivity on hex addresses.
-    - [CreateDenom] / [CreateDenomDescription] are the model's [create_denom] / [create_descr];
-    - the Owner constants are the model's;
-    - every function of the repository that writes the registry is a function the model has, and the six write
-      primitives write the prefix the model's three maps stand for. *)
-From Teleport Require Import Base.Bytes Base.Outcome Base.AList Model.Registry Gen.RegistryGen.
+    - the string [TokenPair.GetID] hashes, as a normalised operand list (the translator follows delegation to
+      helpers and byte-slice building by append, so only WHAT is hashed matters).  Generic lemma: a hash of
+      text ++ sep ++ denom0  whose separator starts with a character no hex address contains is collision-free on
+      hex-address texts whenever the hash itself is.  So the oracle hypothesis of the C12 theorems ([hid] injective
+      on hex-address texts, never empty) is met by the REAL GetID as soon as sha256 is collision-free - and by
+      nothing weaker: on arbitrary texts every such function collides ([source_getid_collides]).
+    - [CreateDenom] / [CreateDenomDescription] as operand lists: equal to the model's [create_denom] / [create_descr];
+    - the Owner constants;
+    - who writes the registry, semantically: the translator computes, interprocedurally under x/aggregate, which raw
+      writes (Set / Delete on a prefix store of one of the three prefixes, however the store is obtained) every
+      exported function can reach.  [writers_ok]: every operation / primitive of the model reaches exactly the writes
+      the model's function performs; nothing else reaches a raw write without passing through an operation; nobody
+      outside x/aggregate calls a write primitive; nothing was left undetermined. *)
+From Coq Require Import Lia.
+From Teleport Require Import Base.Bytes Base.Outcome Base.AList Model.Registry.
 Local Open Scope N_scope.
 
 (** * GetID *)
@@ -105,115 +113,121 @@ Section GetID.
   Qed.
 End GetID.
 
-(** the regenerated GetID has the shape; and it is the string the documentation of the model states *)
-Lemma getid_source_shape : getid_shape_ok getid_parts = true.
-Proof. vm_compute. reflexivity. Qed.
+(** on ARBITRARY texts every function of this shape collides, whatever the hash: the separator may occur in the text *)
+Lemma source_getid_collides (H : bytes -> bytes) ps :
+  getid_shape_ok ps = true ->
+  exists t d t' d', t <> t' /\ hid_of_source H ps t d = hid_of_source H ps t' d'.
+Proof.
+  intro S. unfold getid_shape_ok in S.
+  destruct ps as [|[[|k0] l0] ps]; try discriminate.
+  destruct ps as [|[[|[|[|k1]]] [|c sep]] ps]; try discriminate.
+  destruct ps as [|[[|[|k2]] l2] ps]; try discriminate. destruct ps; try discriminate.
+  exists (B "a" ++ (c :: sep) ++ B "b"), (B "c"), (B "a"), (B "b" ++ (c :: sep) ++ B "c"). split.
+  - intro E. apply (f_equal (@length byte)) in E. rewrite !app_length in E. cbn in E. lia.
+  - unfold hid_of_source. cbn [eval_parts]. f_equal. repeat (rewrite <- app_assoc || rewrite <- app_comm_cons). reflexivity.
+Qed.
 
-Lemma getid_source_is_text_bar_denom t d : eval_parts getid_parts t d = Some (t ++ B "|" ++ d ++ []).
-Proof. reflexivity. Qed.
-
-(** * CreateDenom / CreateDenomDescription *)
-
-(* fmt.Sprintf with %s verbs only *)
-Fixpoint fmt_s (f : bytes) (args : list bytes) : option bytes :=
-  match f with
-  | [] => match args with [] => Some [] | _ => None end
-  | c :: r =>
-      if Byte.eqb c "%"%byte then
-        match r with
-        | s :: r' =>
-            if Byte.eqb s "s"%byte then
-              match args with
-              | a :: args' =>
-                  match r' with
-                  | [] => match args' with [] => Some a | _ => None end
-                  | _ => match fmt_s r' args' with Some x => Some (a ++ x) | None => None end
-                  end
-              | [] => None
-              end
-            else None
-        | [] => None
-        end
-      else match fmt_s r args with Some x => Some (c :: x) | None => None end
-  end.
-
-(* 3 = a constant's value, 4 = the function's parameter *)
-Fixpoint resolve_args (as_ : list (nat * bytes)) (param : bytes) : option (list bytes) :=
-  match as_ with
+(** * CreateDenom / CreateDenomDescription as operand lists: 2 = literal bytes, 4 = the function's parameter *)
+Fixpoint fmt_parts_eval (ps : list (nat * bytes)) (param : bytes) : option bytes :=
+  match ps with
   | [] => Some []
-  | (k, v) :: r =>
-      match resolve_args r param with
+  | (k, l) :: r =>
+      match fmt_parts_eval r param with
       | None => None
-      | Some rest => match k with 3%nat => Some (v :: rest) | 4%nat => Some (param :: rest) | _ => None end
+      | Some rest => match k with 2%nat => Some (l ++ rest) | 4%nat => Some (param ++ rest) | _ => None end
       end
   end.
 
-Definition sprintf_source (f : bytes) (as_ : list (nat * bytes)) (param : bytes) : option bytes :=
-  match resolve_args as_ param with Some l => fmt_s f l | None => None end.
+Definition part_eqb (a b : nat * bytes) : bool := Nat.eqb (fst a) (fst b) && bytes_eqb (snd a) (snd b).
 
-Lemma create_denom_source text : sprintf_source create_denom_fmt create_denom_args text = Some (create_denom text).
-Proof. reflexivity. Qed.
+Fixpoint parts_eqb (a b : list (nat * bytes)) : bool :=
+  match a, b with
+  | [], [] => true
+  | x :: a', y :: b' => part_eqb x y && parts_eqb a' b'
+  | _, _ => false
+  end.
 
-Lemma create_descr_source text : sprintf_source create_descr_fmt create_descr_args text = Some (create_descr text).
-Proof. reflexivity. Qed.
+Lemma parts_eqb_eq a : forall b, parts_eqb a b = true -> a = b.
+Proof.
+  induction a as [|[k l] a IH]; intros [|[k' l'] b] H; cbn in H; try discriminate; [reflexivity|].
+  apply andb_true_iff in H as [H1 H2]. unfold part_eqb in H1. cbn in H1. apply andb_true_iff in H1 as [K L].
+  apply Nat.eqb_eq in K. apply bytes_eqb_eq in L. subst. rewrite (IH _ H2). reflexivity.
+Qed.
+
+Definition create_denom_expected : list (nat * bytes) := [(2%nat, B "aggregate/"); (4%nat, [])].
+Definition create_descr_expected : list (nat * bytes) := [(2%nat, B "Cosmos coin token representation of "); (4%nat, [])].
+
+Lemma create_denom_of_parts ps text :
+  parts_eqb ps create_denom_expected = true -> fmt_parts_eval ps text = Some (create_denom text).
+Proof. intro H. apply parts_eqb_eq in H. subst ps. cbn [fmt_parts_eval create_denom_expected]. rewrite app_nil_r. reflexivity. Qed.
+
+Lemma create_descr_of_parts ps text :
+  parts_eqb ps create_descr_expected = true -> fmt_parts_eval ps text = Some (create_descr text).
+Proof. intro H. apply parts_eqb_eq in H. subst ps. cbn [fmt_parts_eval create_descr_expected]. rewrite app_nil_r. reflexivity. Qed.
 
 (** * Owner constants *)
 Fixpoint lookup_name (n : bytes) (l : list (bytes * N)) : option N :=
   match l with [] => None | (k, v) :: r => if bytes_eqb n k then Some v else lookup_name n r end.
 
-Lemma owner_source :
-  lookup_name (B "OWNER_MODULE") owner_values = Some OWNER_MODULE /\
-  lookup_name (B "OWNER_EXTERNAL") owner_values = Some OWNER_EXTERNAL.
-Proof. vm_compute. split; reflexivity. Qed.
+Definition owners_ok (l : list (bytes * N)) : bool :=
+  match lookup_name (B "OWNER_MODULE") l, lookup_name (B "OWNER_EXTERNAL") l with
+  | Some a, Some b => N.eqb a OWNER_MODULE && N.eqb b OWNER_EXTERNAL
+  | _, _ => false
+  end.
 
-(** * Who writes the registry *)
+(** * Who can write the registry *)
 
-(* the functions the model has (Model/Registry.v): its operations and the helpers they are made of *)
-Definition modelled_writers : list bytes :=
-  [ B "x/aggregate/genesis.go:InitGenesis";                          (* init_genesis *)
-    B "x/aggregate/keeper/msg_server.go:Keeper.ConvertCoin";         (* convert: the self-destruct clean-up *)
-    B "x/aggregate/keeper/msg_server.go:Keeper.ConvertERC20";
-    B "x/aggregate/keeper/proposals.go:Keeper.RegisterCoin";         (* register_coin *)
-    B "x/aggregate/keeper/proposals.go:Keeper.AddCoin";              (* add_coin *)
-    B "x/aggregate/keeper/proposals.go:Keeper.RegisterERC20";        (* register_erc20 *)
-    B "x/aggregate/keeper/proposals.go:Keeper.ToggleRelay";          (* toggle *)
-    B "x/aggregate/keeper/proposals.go:Keeper.UpdateTokenPairERC20"; (* update_pair *)
-    B "x/aggregate/keeper/token_pairs.go:Keeper.DeleteTokenPair";    (* delete_pair *)
-    B "x/aggregate/keeper/token_pairs.go:Keeper.SetDenomsMap" ].     (* set_denoms *)
+(* raw writes: 10 / 11 = Set / Delete on prefix 0x01 (the model's [st_pairs]: aset / adel), 20 / 21 on 0x02
+   ([st_erc20]), 30 / 31 on 0x03 ([st_denom]).  What each function of the model writes: *)
+Definition model_ops : list bytes :=
+  [ B "x/aggregate:InitGenesis"; B "x/aggregate/keeper:Keeper.AddCoin"; B "x/aggregate/keeper:Keeper.ConvertCoin";
+    B "x/aggregate/keeper:Keeper.ConvertERC20"; B "x/aggregate/keeper:Keeper.RegisterCoin";
+    B "x/aggregate/keeper:Keeper.RegisterERC20"; B "x/aggregate/keeper:Keeper.ToggleRelay";
+    B "x/aggregate/keeper:Keeper.UpdateTokenPairERC20" ].
 
-Definition writers_ok (ws : list (bytes * list bytes)) : bool :=
-  forallb (fun w => existsb (bytes_eqb (fst w)) modelled_writers) ws &&
-  (* and every modelled function is still there (a renamed function is a model that describes nothing) *)
-  forallb (fun m => existsb (fun w => bytes_eqb (fst w) m) ws) modelled_writers.
+Definition model_primitives : list bytes :=
+  [ B "x/aggregate/keeper:Keeper.DeleteTokenPair"; B "x/aggregate/keeper:Keeper.SetDenomMap";
+    B "x/aggregate/keeper:Keeper.SetDenomsMap"; B "x/aggregate/keeper:Keeper.SetERC20Map";
+    B "x/aggregate/keeper:Keeper.SetTokenPair" ].
 
-(* raw access to the three prefixes: a function whose store handle is written to (Set / Delete) must be one of the
-   six primitives, on the prefix the model's map of that name stands for; the handle must come from
-   prefix.NewStore / KVStorePrefixIterator (anything else is outside what the translator understands) *)
-Definition primitive_prefix : list (bytes * (bytes * bytes)) :=
-  [ (B "x/aggregate/keeper/token_pairs.go:Keeper.SetTokenPair", (B "KeyPrefixTokenPair", B "Set"));             (* aset .. st_pairs *)
-    (B "x/aggregate/keeper/token_pairs.go:Keeper.deleteTokenPair", (B "KeyPrefixTokenPair", B "Delete"));       (* adel .. st_pairs *)
-    (B "x/aggregate/keeper/token_pairs.go:Keeper.SetERC20Map", (B "KeyPrefixTokenPairByERC20", B "Set"));       (* aset .. st_erc20 *)
-    (B "x/aggregate/keeper/token_pairs.go:Keeper.deleteERC20Map", (B "KeyPrefixTokenPairByERC20", B "Delete")); (* adel .. st_erc20 *)
-    (B "x/aggregate/keeper/token_pairs.go:Keeper.SetDenomMap", (B "KeyPrefixTokenPairByDenom", B "Set"));       (* aset .. st_denom *)
-    (B "x/aggregate/keeper/token_pairs.go:Keeper.deleteDenomMap", (B "KeyPrefixTokenPairByDenom", B "Delete")) ].
+Definition model_footprints : list (bytes * list nat) :=
+  [ (B "x/aggregate:InitGenesis", [10; 20; 30]%nat);                           (* init_genesis: store_new_pair per pair *)
+    (B "x/aggregate/keeper:Keeper.RegisterCoin", [10; 20; 30]%nat);            (* register_coin: store_new_pair *)
+    (B "x/aggregate/keeper:Keeper.RegisterERC20", [10; 20; 30]%nat);           (* register_erc20: store_new_pair *)
+    (B "x/aggregate/keeper:Keeper.AddCoin", [10; 30]%nat);                     (* add_coin: aset pairs, aset denom *)
+    (B "x/aggregate/keeper:Keeper.ToggleRelay", [10]%nat);                     (* toggle: set_pair *)
+    (B "x/aggregate/keeper:Keeper.UpdateTokenPairERC20", [10; 11; 20; 21; 30; 31]%nat);  (* update_pair: delete_pair, then all three *)
+    (B "x/aggregate/keeper:Keeper.ConvertCoin", [11; 21; 31]%nat);             (* convert: delete_pair (clean-up) *)
+    (B "x/aggregate/keeper:Keeper.ConvertERC20", [11; 21; 31]%nat);
+    (B "x/aggregate/keeper:Keeper.DeleteTokenPair", [11; 21; 31]%nat);         (* delete_pair *)
+    (B "x/aggregate/keeper:Keeper.SetTokenPair", [10]%nat);                    (* aset .. st_pairs *)
+    (B "x/aggregate/keeper:Keeper.SetERC20Map", [20]%nat);                     (* aset .. st_erc20 *)
+    (B "x/aggregate/keeper:Keeper.SetDenomMap", [30]%nat);                     (* aset .. st_denom *)
+    (B "x/aggregate/keeper:Keeper.SetDenomsMap", [30]%nat) ].                  (* set_denoms *)
 
-Definition mem (x : bytes) (l : list bytes) : bool := existsb (bytes_eqb x) l.
+Fixpoint lookup_fp (n : bytes) (l : list (bytes * list nat)) : option (list nat) :=
+  match l with [] => None | (k, v) :: r => if bytes_eqb n k then Some v else lookup_fp n r end.
 
-Definition raw_entry_ok (e : bytes * list bytes) : bool :=
-  let items := snd e in
-  (mem (B "<-prefix.NewStore") items || mem (B "<-sdk.KVStorePrefixIterator") items) &&
-  if mem (B "Set") items || mem (B "Delete") items then
-    existsb (fun pp => bytes_eqb (fst pp) (fst e) &&
-                       (* exactly this prefix, exactly this one write method *)
-                       mem (fst (snd pp)) items && mem (snd (snd pp)) items &&
-                       Nat.eqb (length (filter (fun i => is_prefix (B "KeyPrefixTokenPair") i) items)) 1 &&
-                       negb (mem (if bytes_eqb (snd (snd pp)) (B "Set") then B "Delete" else B "Set") items))
-            primitive_prefix
-  else true.
+Fixpoint nats_eqb (a b : list nat) : bool :=
+  match a, b with
+  | [], [] => true
+  | x :: a', y :: b' => Nat.eqb x y && nats_eqb a' b'
+  | _, _ => false
+  end.
 
-Definition raw_ok (rs : list (bytes * list bytes)) : bool :=
-  forallb raw_entry_ok rs &&
-  forallb (fun pp => existsb (fun e => bytes_eqb (fst e) (fst pp)) rs) primitive_prefix.
+Fixpoint names_eqb (a b : list bytes) : bool :=
+  match a, b with
+  | [], [] => true
+  | x :: a', y :: b' => bytes_eqb x y && names_eqb a' b'
+  | _, _ => false
+  end.
 
-Lemma writers_source : writers_ok registry_writers = true /\ raw_ok registry_raw_access = true.
-Proof. vm_compute. split; reflexivity. Qed.
+Definition is_nil {A} (l : list A) : bool := match l with [] => true | _ => false end.
+
+(* every modelled function reaches exactly the writes the model's function performs *)
+Definition footprints_ok (entries : list (bytes * list nat)) : bool :=
+  forallb (fun m => match lookup_fp (fst m) entries with Some fp => nats_eqb fp (snd m) | None => false end) model_footprints.
+
+Definition writers_ok (entries : list (bytes * list nat)) (unmodelled external undetermined ops prims : list bytes) : bool :=
+  footprints_ok entries && is_nil unmodelled && is_nil external && is_nil undetermined &&
+  names_eqb ops model_ops && names_eqb prims model_primitives.
